@@ -596,6 +596,24 @@ pub fn check(tier: Tier, threads: usize) -> CheckOutcome {
         }
     }
     events += wcases.iter().map(|(_, n)| 2 * *n as u64).sum::<u64>();
+    // connections that end while the server still owes them bytes
+    let ucases: Vec<(usize, usize, usize)> = vec![(1, 8192, 1), (1, 8192, 4), (2, 8192, 1), (1, 100_000, 1), (2, 300_000, 2)];
+    crate::watchdog::working_on("C17 slow consumers dropped by the idle timeout while responses are still queued for them".into());
+    for (l, v, g) in &ucases {
+        crate::watchdog::beat();
+        match unread_response_then_idle(*l, *v, *g) {
+            Err(er) if er.starts_with("connect:") => {
+                found.entry("server|not-accepting".into()).or_insert(Violation { signature: "server|not-accepting".into(), what: format!("limit {} unread responses: {}", l, er), replay: json!({"engine": "c17-unread"}) });
+            }
+            Err(er) => mach = Some(er),
+            Ok(Some((sig, what))) => {
+                found.entry(sig.clone()).or_insert(Violation { signature: sig, what, replay: json!({"engine": "c17-unread", "limit": l, "value": v, "gets": g}) });
+            }
+            Ok(None) => {}
+        }
+    }
+    crate::watchdog::idle();
+    events += ucases.len() as u64 * 6;
     let samples: Vec<serde_json::Value> = cases
         .iter()
         .step_by((cases.len() / 5).max(1))
@@ -614,6 +632,7 @@ pub fn check(tier: Tier, threads: usize) -> CheckOutcome {
             "queued_silent_client_scenarios": qcases.len(),
             "several_accept_loops_scenarios": lcases.len(),
             "crowd_scenarios": wcases.len(),
+            "slow_consumer_dropped_with_responses_queued_scenarios": ucases.len(),
             "transitions": events,
             "traces_validated_against_impl": cases.len(),
             "limits": limits,
@@ -658,6 +677,64 @@ fn many_waiters_scenario(limit: usize, n: usize) -> Result<Option<(String, Strin
     }
     if !w.server_alive() {
         return Ok(Some(("server-died".into(), format!("{}: the accept loop ended", name))));
+    }
+    Ok(None)
+}
+
+/// A connection that ends while the server still owes it bytes: a slow consumer (small receive
+/// buffer) stores a value, asks for it `gets` times, never reads the answers and goes silent; the
+/// idle timeout drops it.  The client queued behind it is served at that moment, and afterwards the
+/// server serves exactly `limit` fresh connections.
+fn unread_response_then_idle(limit: usize, value_len: usize, gets: usize) -> Result<Option<(String, String)>, String> {
+    let w = NetWorld::new(NetCfg { conn_limit: limit as u32, item_limit: 1 << 20, ..Default::default() })?;
+    let name = format!("limit={} value={}B unread gets={}", limit, value_len, gets);
+    let mut holders: Vec<Conn> = vec![];
+    for i in 0..limit.saturating_sub(1) {
+        holders.push(open(&w, 0xb00 + i as u32)?);
+    }
+    let mut a = w.connect()?;
+    a.set_rcvbuf(2048);
+    a.step(&w, &Req::store(op::SET, b"owed", &vec![b'o'; value_len], 0, 0, 0).opaque(0xb10).bytes())?;
+    let mut reqs = vec![];
+    for i in 0..gets {
+        reqs.extend(Req::get(op::GET, b"owed").opaque(0xb20 + i as u32).bytes());
+    }
+    // (never read from here on)
+    let _ = a.send_never_reading(&w, &reqs);
+    let mut waiter = open(&w, 0xb30)?;
+    if waiter.served {
+        return Ok(Some(("unread|limit".into(), format!("{}: a client beyond the limit is served while the slow consumer holds its slot", name))));
+    }
+    // the holders stay active, the slow consumer says nothing for 61 s
+    for _ in 0..2 {
+        w.advance(30);
+        for (i, h) in holders.iter_mut().enumerate() {
+            let _ = h.c.step(&w, &noop(0xb40 + i as u32));
+        }
+    }
+    w.advance(2);
+    let mut ws = [waiter];
+    refresh(&w, &mut ws);
+    let [w0] = ws;
+    waiter = w0;
+    if !waiter.served {
+        return Ok(Some((
+            "unread|not-picked-up".into(),
+            format!("{}: the slow consumer was silent for 62 s (idle timeout 60 s) but the client queued behind it is still not served", name),
+        )));
+    }
+    waiter.c.close(&w);
+    for h in holders.iter_mut() {
+        h.c.close(&w);
+    }
+    let mut probe: Vec<Conn> = vec![];
+    for i in 0..=limit {
+        probe.push(open(&w, 0xb50 + i as u32)?);
+    }
+    refresh(&w, &mut probe);
+    let served = probe.iter().filter(|c| c.served).count();
+    if served != limit || !w.server_alive() {
+        return Ok(Some(("unread|slots".into(), format!("{}: afterwards {} of {} fresh connections are served, expected {}", name, served, limit + 1, limit))));
     }
     Ok(None)
 }
